@@ -54,6 +54,10 @@ pub struct Plan {
     pub heartbeat_ms: u64,
     pub term_ms: u64,
     pub latency_ms: u64,
+    /// every message gets an extra delay in [0, latency_ms], a pure function of (jitter_seed, from, to, seq):
+    /// "delivered after a finite seeded delay", so exactly periodic resonances are not the only schedules tried
+    #[serde(default)]
+    pub jitter_seed: u64,
     /// per node: phase of its 10 ms tick
     pub tick_phase_us: Vec<u64>,
     /// faults may happen until here
@@ -107,6 +111,8 @@ enum Kind {
     TailAppend(u64),
     /// the horizon: every fault stops (partitions heal, stalled nodes resume)
     EndFaults,
+    /// adaptive event drawn by the recording pass (it is written into the plan as an ordinary timed event)
+    Dyn(usize),
 }
 
 struct Msg {
@@ -127,7 +133,7 @@ fn clone_resp(r: &Response) -> Response {
 /// draws it and records it.
 pub enum Chooser<'a> {
     Replay(BTreeMap<(u64, u64, u64), MsgAct>),
-    Record { rng: &'a mut Rng, drop: u64, dup: u64, delay: u64, max_delay_ms: u64, until_ns: u64, out: Vec<Ev> },
+    Record { rng: &'a mut Rng, drop: u64, dup: u64, delay: u64, max_delay_ms: u64, until_ns: u64, out: Vec<Ev>, adapt: [u64; 3], next_data: u64 },
 }
 
 pub struct Sim<'a> {
@@ -164,6 +170,8 @@ pub struct Sim<'a> {
     pub cut_on: Vec<String>,
     pub cut: Option<String>,
     truncated: bool,
+    term_at_end_of_faults: u64,
+    dyn_events: Vec<Ev>,
     /// per follower: consecutive LogMismatch answers to Appends without any change of its log state
     mismatch_streak: Vec<(u64, (u64, u64, u64))>,
 }
@@ -219,6 +227,8 @@ impl<'a> Sim<'a> {
             cut_on: vec![],
             cut: None,
             truncated: false,
+            term_at_end_of_faults: 0,
+            dyn_events: vec![],
             mismatch_streak: vec![(0, (0, 0, 0)); n as usize],
         };
         for i in 0..n {
@@ -273,7 +283,7 @@ impl<'a> Sim<'a> {
         *ps += 1;
         let act = match &mut self.chooser {
             Chooser::Replay(map) => map.get(&(from, to, seq)).cloned(),
-            Chooser::Record { rng, drop, dup, delay, max_delay_ms, until_ns, out } => {
+            Chooser::Record { rng, drop, dup, delay, max_delay_ms, until_ns, out, .. } => {
                 if self.now_ns >= *until_ns {
                     None
                 } else {
@@ -295,7 +305,14 @@ impl<'a> Sim<'a> {
             }
         };
         let act = if self.faults_allowed() { act } else { None };
-        let base = self.now_ns + self.plan.latency_ms * MS;
+        let jitter_ns = if self.plan.jitter_seed == 0 {
+            0
+        } else {
+            let mut h = Fnv::new();
+            h.u64(self.plan.jitter_seed).u64(from).u64(to).u64(seq);
+            (h.get() >> 11) % (self.plan.latency_ms * MS + 1)
+        };
+        let base = self.now_ns + self.plan.latency_ms * MS + jitter_ns;
         let kind = |id| if is_resp { Kind::Resp(id) } else { Kind::Req(id) };
         self.stats.log.u64(from).u64(to).u64(seq);
         match act {
@@ -437,7 +454,12 @@ impl<'a> Sim<'a> {
                     self.timed(i)
                 }
                 Kind::TailAppend(k) => self.tail_append(k),
+                Kind::Dyn(i) => {
+                    let ev = self.dyn_events[i].clone();
+                    self.apply_timed(&ev);
+                }
                 Kind::EndFaults => {
+                    self.term_at_end_of_faults = (0..self.plan.nodes as usize).map(|i| self.nodes[i].verif_term()).max().unwrap_or(0);
                     self.ghost_divergence();
                     self.group = None;
                     for s in self.stalled_until_ns.iter_mut() {
@@ -466,10 +488,65 @@ impl<'a> Sim<'a> {
     }
 
     fn timed(&mut self, i: usize) {
+        let ev = self.plan.events[i].clone();
+        self.apply_timed(&ev);
+    }
+
+    /// Recording pass only: faults are biased to land where in-flight state exists (right after an
+    /// election, right after an accepted append). Whatever is drawn here is pinned into the plan.
+    fn adapt(&mut self, trigger: u8, node: u64) {
+        let now_ms = self.now_ns / MS;
+        let horizon = self.plan.horizon_ms;
+        let nodes = self.plan.nodes;
+        let mut new_events: Vec<Ev> = vec![];
+        if let Chooser::Record { rng, adapt, next_data, .. } = &mut self.chooser {
+            if now_ms + 50 >= horizon {
+                return;
+            }
+            match trigger {
+                0 => {
+                    // a node has just become leader
+                    if rng.below(100) < adapt[0] {
+                        for _ in 0..rng.range(1, 3) {
+                            *next_data += 1;
+                            new_events.push(Ev::Append { at_ms: now_ms + rng.range(5, 900), node, data: *next_data });
+                        }
+                    }
+                    if rng.below(100) < adapt[1] {
+                        let at = now_ms + rng.range(5, 1500);
+                        new_events.push(Ev::Partition { at_ms: at, groups: vec![vec![node], (0..nodes).filter(|x| *x != node).collect()] });
+                        new_events.push(Ev::Heal { at_ms: at + rng.range(300, 6000) });
+                    }
+                }
+                _ => {
+                    // a client append has just been accepted
+                    if rng.below(100) < adapt[2] {
+                        let at = now_ms + rng.range(0, 120);
+                        new_events.push(Ev::Partition { at_ms: at, groups: vec![vec![node], (0..nodes).filter(|x| *x != node).collect()] });
+                        new_events.push(Ev::Heal { at_ms: at + rng.range(300, 6000) });
+                    }
+                }
+            }
+        }
+        for ev in new_events {
+            let at = match &ev {
+                Ev::Partition { at_ms, .. } | Ev::Heal { at_ms } | Ev::Append { at_ms, .. } => *at_ms,
+                _ => now_ms,
+            };
+            if let Chooser::Record { out, .. } = &mut self.chooser {
+                out.push(ev.clone());
+            }
+            self.dyn_events.push(ev);
+            let idx = self.dyn_events.len() - 1;
+            self.push(at * MS, Kind::Dyn(idx));
+        }
+    }
+
+    fn apply_timed(&mut self, ev: &Ev) {
         if !self.faults_allowed() {
             return;
         }
-        match self.plan.events[i].clone() {
+        match ev.clone() {
             Ev::Partition { groups, .. } => {
                 let mut g = vec![u64::MAX; self.plan.nodes as usize];
                 for (gi, members) in groups.iter().enumerate() {
@@ -528,6 +605,7 @@ impl<'a> Sim<'a> {
             Ok(reqs) => {
                 self.stats.count("append.accepted");
                 self.appended_any = true;
+                self.adapt(1, node);
                 self.send_requests(node, reqs);
                 true
             }
@@ -595,12 +673,18 @@ impl<'a> Sim<'a> {
                 }
                 if is_leader {
                     self.leader_committed.push((index, eterm, data, term));
+                    if eterm != term && !self.ghosts.iter().any(|g| g.starts_with("G5:")) {
+                        // G5: a leader commits, by counting replicas, an entry that is not from its own term
+                        self.ghosts.push("G5:leader-commits-entry-of-an-earlier-term-by-counting-replicas".to_string());
+                        self.stats.count("ghost.G5");
+                    }
                 }
                 self.stats.replicated += 1;
             }
             self.seen_history[i] = hist_len;
             // C29: a node that has just become leader holds everything leaders committed before
             if is_leader && !self.was_leader[i] {
+                self.adapt(0, i as u64);
                 self.stats.elected = true;
                 if self.appended_any {
                     self.stats.leader_changes_after_append += 1;
@@ -632,9 +716,32 @@ impl<'a> Sim<'a> {
             return;
         }
         let leaders: Vec<u64> = (0..self.plan.nodes).filter(|i| self.nodes[*i as usize].verif_is_leader()).collect();
+        if leaders.is_empty() && self.plan.horizon_ms > 0 {
+            let max_term = (0..self.plan.nodes as usize).map(|i| self.nodes[i].verif_term()).max().unwrap_or(0);
+            if max_term >= self.term_at_end_of_faults + 15 {
+                // G11: from a post-partition state the fixed, staggered election timeouts (never randomised) make the
+                // same nodes collide as candidates term after term: candidates answer LeaderMismatch / TermMismatch to
+                // each other's vote requests and the terms keep advancing without a winner
+                self.ghosts.insert(0, "G11:election-livelock-terms-keep-advancing".to_string());
+                self.stats.count("ghost.G11");
+            }
+        }
         if leaders.len() != 1 {
             self.viol("C30", "no-single-leader-after-faults-stopped", format!("{} ms after the last fault the leaders are {leaders:?}", self.plan.settle_ms));
             return;
+        }
+        // everything the final leader holds must be committed everywhere by now (in particular entries it
+        // inherited from an earlier term, also when nothing new was appended after the election)
+        let l = leaders[0] as usize;
+        let held: Vec<(u64, u64, u64)> = self.nodes[l].storage.entries.iter().map(|e| (e.index, e.term, e.data)).collect();
+        for (index, term, data) in held {
+            for i in 0..self.plan.nodes as usize {
+                let ok = self.nodes[i].storage.entries.iter().any(|e| e.index == index && e.term == term && e.data == data && e.committed);
+                if !ok {
+                    self.viol("C30", "leader-entry-not-committed-everywhere", format!("entry (index {index}, term {term}, data {data}) in the log of leader {l} is not committed on node {i} {} ms after the last fault", self.plan.settle_ms));
+                    return;
+                }
+            }
         }
         for (data, at) in self.tail_data.clone() {
             for i in 0..self.plan.nodes as usize {
